@@ -1,0 +1,72 @@
+//! Verification hooks (compiled only with `--cfg may_verif`).
+//!
+//! A *verification point* `pt(site, obj, a, b)` is placed immediately before a
+//! shared-memory operation (or at an API exit, `*.ret`); a *note* reports a fact
+//! without ever blocking.  Nothing happens unless a harness installs a
+//! [`Controller`]; with the cfg off none of this is compiled.
+
+use std::sync::atomic::{AtomicPtr, Ordering};
+
+/// What a verification harness plugs in.
+pub trait Controller: Sync {
+    /// called right before the operation named by `site`; may block the caller
+    fn point(&self, site: &'static str, obj: usize, a: usize, b: usize);
+    /// a fact is reported; must not block
+    fn note(&self, kind: &'static str, a: usize, b: usize) -> usize;
+    /// virtual monotonic clock in ns, `None` = use the real clock
+    fn now_ns(&self) -> Option<u64>;
+    /// choose the worker that receives a globally scheduled coroutine
+    fn place(&self, dflt: usize, workers: usize) -> usize;
+}
+
+static CTRL: AtomicPtr<&'static dyn Controller> = AtomicPtr::new(std::ptr::null_mut());
+
+/// install the controller (once, before the code under test runs)
+pub fn install(c: &'static dyn Controller) {
+    let b = Box::into_raw(Box::new(c));
+    CTRL.store(b, Ordering::SeqCst);
+}
+
+#[inline]
+pub fn ctrl() -> Option<&'static dyn Controller> {
+    let p = CTRL.load(Ordering::Acquire);
+    if p.is_null() {
+        None
+    } else {
+        Some(unsafe { *p })
+    }
+}
+
+#[inline]
+pub fn pt(site: &'static str, obj: usize, a: usize, b: usize) {
+    if let Some(c) = ctrl() {
+        c.point(site, obj, a, b)
+    }
+}
+
+#[inline]
+pub fn note(kind: &'static str, a: usize, b: usize) -> usize {
+    match ctrl() {
+        Some(c) => c.note(kind, a, b),
+        None => 0,
+    }
+}
+
+#[inline]
+pub fn now_ns() -> Option<u64> {
+    ctrl().and_then(|c| c.now_ns())
+}
+
+#[inline]
+pub fn place(dflt: usize, workers: usize) -> usize {
+    match ctrl() {
+        Some(c) => c.place(dflt, workers) % workers,
+        None => dflt,
+    }
+}
+
+/// address of a value, used as object id
+#[inline]
+pub fn addr<T: ?Sized>(t: &T) -> usize {
+    t as *const T as *const u8 as usize
+}
